@@ -52,7 +52,10 @@ def plan(prop, tier, seed):
         for t in corpus.wide(nwide, seed, 140 if tier == 'quick' else 200):
             out.append((t, False))
     if prop in ('C01', 'C02'):
-        for t in corpus.widesquare(seed, big=(tier == 'thorough')):
+        for t in list(corpus.widesquare(seed, big=(tier == 'thorough'))) + corpus.giant(seed):
+            out.append((t, False))
+    if prop == 'C04':
+        for t in corpus.giant_gen(seed) + corpus.giant(seed):
             out.append((t, False))
     if prop not in ('C18',):
         for t in corpus.midwide(seed, big=(tier == 'thorough')):
